@@ -42,6 +42,8 @@ def make_exc(kind):
         return OSError(errno.EMFILE, "Too many open files")
     if kind == "oserror":
         return OSError(errno.EINVAL, "Invalid argument")
+    if kind == "runtime":
+        return RuntimeError("injected failure that is no OSError")
     if kind == "ssl":
         return _ssl.SSLError("injected TLS failure")
     if kind == "eintr":
@@ -91,6 +93,14 @@ class ServerConn:
                     # only a retrieval command can be answered by several lines (anything else would be unsolicited bytes)
                     if cmd.get("verb") in (b"get", b"gets", b"gat", b"gats"):
                         rep = b"VALUE k1 zero one\r\nx\r\nEND\r\n"
+                    else:
+                        rep = b"WHAT_IS_THIS 17\r\n"
+                elif rf == "foreign":
+                    # a well-formed VALUE block for a key that was never asked for
+                    if cmd.get("verb") in (b"get", b"gat"):
+                        rep = b"VALUE never-asked-for 0 1\r\nx\r\nEND\r\n"
+                    elif cmd.get("verb") in (b"gets", b"gats"):
+                        rep = b"VALUE never-asked-for 0 1 77\r\nx\r\nEND\r\n"
                     else:
                         rep = b"WHAT_IS_THIS 17\r\n"
                 elif isinstance(rf, tuple) and rf[0] == "trunc":
